@@ -178,3 +178,62 @@ func H_C01_flat_many() {
 		vCover("more-than-default-k")
 	}
 }
+
+func init() { vHarnesses["H_C01_flat_masks"] = H_C01_flat_masks }
+
+// seven stored vectors (ids out of insertion order), ANY subset of them removed (128 masks), Flush, one more Add
+// (a fresh id, or an update of a removed id), another Flush: the answer is exact before the flush, after it, after
+// the later Add and after the second flush — every pattern of holes, incl. runs of removed slots at the end, meets
+// the compaction code; symbolic query coordinate, k over all of int
+func H_C01_flat_masks() {
+	kind := []DistanceKind{L2Squared, Cosine}[vChoose("metric", 2)]
+	idx, err := NewFlatIndex(2, kind)
+	vAssert(err == nil, "constructor")
+	m := vNewRef(kind)
+	ids := []uint32{7, 3, 12, 5, 9, 2, 11}
+	for i, id := range ids {
+		vAddBoth(idx, m, id, []float32{float32(i%4) + 0.5, float32(i/2) - 1.25})
+	}
+	mask := vChoose("removed_mask", 128)
+	for i, id := range ids {
+		if mask&(1<<uint(i)) != 0 {
+			vRemoveBoth(idx, m, id)
+		}
+	}
+	q := []float32{1.25, 0.5}
+	k := vInt("k")
+	check := func(label string) {
+		res, serr := idx.NewSearch().WithQuery(vCopy(q)).WithK(k).Execute()
+		vAssert(serr == nil, label+"-search-ok")
+		vTag("at=" + label)
+		pq, _ := m.dist.Preprocess(vCopy(q))
+		vCheckExact(res, m.eligible(pq, 0, nil), k)
+	}
+	check("before-flush")
+	vFlushBoth(idx, m)
+	check("after-flush")
+	newID := uint32(42)
+	if vChoose("later_add_is_an_update", 2) == 1 {
+		for i, id := range ids {
+			if mask&(1<<uint(i)) != 0 {
+				newID = id
+				break
+			}
+		}
+	}
+	vAddBoth(idx, m, newID, []float32{1, 1})
+	check("after-later-add")
+	if mask != 0 {
+		// one more removal behind the compacted storage, and a second flush
+		for i := len(ids) - 1; i >= 0; i-- {
+			if mask&(1<<uint(i)) == 0 {
+				vRemoveBoth(idx, m, ids[i])
+				break
+			}
+		}
+		check("after-second-removal")
+		vFlushBoth(idx, m)
+		check("after-second-flush")
+	}
+	vCover("ran")
+}
